@@ -375,7 +375,8 @@ fn search_header_block(ctx: &mut Ctx, start: &[u8], kind: u8) {
     // bounded-exhaustive over a byte-class alphabet
     ctx.gen = "enum";
     let alpha = [b'a', b':', b' ', b'\t', b'\r', b'\n', 0u8, 0x7f, 0xe1];
-    let opt_cfgs: Vec<u8> = if kind == 0 { vec![0, 16, 64, 16 + 64] } else if kind == 1 { vec![0, 1, 2, 16, 32, 1 + 2, 2 + 32, 1 + 2 + 16 + 32] } else { vec![0] };
+    // incl. options of the OTHER message kind (C15: they must have no effect)
+    let opt_cfgs: Vec<u8> = if kind == 0 { vec![0, 16, 64, 16 + 64, 2, 1 + 2 + 8 + 32, 64 + 2] } else if kind == 1 { vec![0, 1, 2, 16, 32, 1 + 2, 2 + 32, 1 + 2 + 16 + 32, 4 + 64] } else { vec![0] };
     enumerate(&alpha, 5, b"", b"", &mut |b| { run(ctx, b, &opt_cfgs, &[1]); !ctx.full() });
     for prefix in [&b"a:"[..], b"a: b", b"a:b\r\n", b"a: b\r\n ", b"a :", b"\x01x\r\n", b" a:b\r\n", b"a:\r\n"] {
         enumerate(&alpha, 4, prefix, b"\r\n\r\n", &mut |b| { run(ctx, b, &opt_cfgs, &[0, 1, 2]); !ctx.full() });
